@@ -94,6 +94,9 @@ func genReleasePrefix(t *rapid.T, nWriters int) []E1Dir {
 }
 
 func genWritersCase(t *rapid.T, kinds []string, poison bool) E1Case {
+	if rapid.IntRange(0, 59).Draw(t, "backlog") == 31 {
+		return genBacklog(t, false)
+	}
 	var c E1Case
 	genKind(t, &c, kinds)
 	maxW, maxC := 3, 4
@@ -472,6 +475,18 @@ func TestC02(t *testing.T) {
 			c := genWritersCase(t, []string{"qblock", "qblock", "qnonblock", "sync"}, false)
 			if c.Kind != "sync" && len(c.Prefix) == 0 && rapid.Bool().Draw(t, "forcedir") {
 				c.Prefix = genReleasePrefix(t, len(c.Tasks))
+			}
+			if rapid.IntRange(0, 5).Draw(t, "withreadfrom") == 0 {
+				// a streamed reader as the only traffic (other writers would interleave with its chunks, C09): its last chunk
+				// must be flushed like everything else, whatever its length and however the source ends
+				c.Tasks = c.Tasks[:1]
+				c.Prefix = nil
+				if c.Kind == "qnonblock" {
+					c.Queue = 8 // no refusals here
+				}
+				size := rapid.SampledFrom([]int{1, 1023, 1024, 1025, 2048, 3000, 4096}).Draw(t, "rfsize")
+				c.Tasks[0].Ops = append(c.Tasks[0].Ops[:imin(1, len(c.Tasks[0].Ops))], E1Op{Op: "readfrom", Sizes: []int{size}, N: rapid.SampledFrom([]int{700, 1024, 4096}).Draw(t, "rfstep")})
+				c.Buffered = true
 			}
 			return c
 		},
